@@ -590,6 +590,45 @@ def m_complex(interp, *args):
     return complex(*args)
 
 
+def _fp(x):
+    """IEEE-754 binary64 term of a float-like operand"""
+    if isinstance(x, SymFloat):
+        return x.e
+    if type(x) in (int, float, bool):
+        return z3.FPVal(float(x), F64)
+    raise Unsupported("floating-point arithmetic with %s" % type(x).__name__)
+
+
+def _cpair(x):
+    """(real, imag) terms of a float or complex operand, coerced the way CPython coerces a float to complex"""
+    if isinstance(x, SymComplex):
+        return _fp(x.real), _fp(x.imag)
+    if type(x) is complex:
+        return z3.FPVal(x.real, F64), z3.FPVal(x.imag, F64)
+    return _fp(x), z3.FPVal(0.0, F64)
+
+
+def _float_binop(op, a, b):
+    """+, -, * on floats / complexes with CPython's (round-to-nearest-even, component-wise) semantics"""
+    rm = z3.RNE()
+    cplx = any(isinstance(x, SymComplex) or type(x) is complex for x in (a, b))
+    if not cplx:
+        f = {"+": z3.fpAdd, "-": z3.fpSub, "*": z3.fpMul}.get(op)
+        if f is None:
+            return NotImplemented
+        return SymFloat(f(rm, _fp(a), _fp(b)))
+    (ar, ai), (br, bi) = _cpair(a), _cpair(b)
+    if op == "+":
+        return SymComplex(SymFloat(z3.fpAdd(rm, ar, br)), SymFloat(z3.fpAdd(rm, ai, bi)))
+    if op == "-":
+        return SymComplex(SymFloat(z3.fpSub(rm, ar, br)), SymFloat(z3.fpSub(rm, ai, bi)))
+    if op == "*":
+        # _Py_c_prod: real = ar*br - ai*bi ; imag = ar*bi + ai*br
+        return SymComplex(SymFloat(z3.fpSub(rm, z3.fpMul(rm, ar, br), z3.fpMul(rm, ai, bi))),
+                          SymFloat(z3.fpAdd(rm, z3.fpMul(rm, ar, bi), z3.fpMul(rm, ai, br))))
+    return NotImplemented
+
+
 class SymFloat(Sym):
     """a Python float as an IEEE-754 binary64 term"""
     __slots__ = ("e",)
@@ -597,6 +636,11 @@ class SymFloat(Sym):
 
     def __init__(self, e):
         self.e = e
+
+    def sym_binop(self, op, other, refl):
+        if not (isinstance(other, (SymFloat, SymComplex)) or type(other) in (int, float, complex)):
+            return NotImplemented
+        return _float_binop(op, other, self) if refl else _float_binop(op, self, other)
 
     def truth_term(self):
         return z3.Not(z3.fpIsZero(self.e))
@@ -622,6 +666,11 @@ class SymComplex(Sym):
     def __init__(self, real=0.0, imag=0.0):
         self.real = real
         self.imag = imag
+
+    def sym_binop(self, op, other, refl):
+        if not (isinstance(other, (SymFloat, SymComplex)) or type(other) in (int, float, complex)):
+            return NotImplemented
+        return _float_binop(op, other, self) if refl else _float_binop(op, self, other)
 
     @staticmethod
     def sym_getattr(obj, interp, name):
